@@ -390,8 +390,8 @@ pub fn property() -> Property {
                 "non-trivial = ≥2 slices and at least one region with a non-empty expected answer; distinct by hash of (document, regions); one evaluation per region",
                 strategy,
                 check,
-                16_000,
-                400_000,
+                60_000,
+                800_000,
             )
             .boxed(),
         ],
